@@ -5,5 +5,7 @@ CONSTANTS
   SearchArg = "index"
   Side = "left"
   Subtract = "prev"
-INVARIANTS TypeOK CursorIsConcat GetIsConcat EndRaises ViewsAgree ConcatIsBijection SearchSortedIsInsertionPoint
+  CacheCum = "none"
+  MazesBuild = "atomic"
+INVARIANTS TypeOK GetIsConcat
 CHECK_DEADLOCK FALSE
